@@ -51,7 +51,7 @@ Fixpoint wf (e : OpExpr) : Prop :=
       /\ (forall ix, valid ix (ishape li) -> iat li ix < nrows b)
       /\ (forall ix, valid ix (ishape ri) -> iat ri ix < ncols b)
   | Masked _ b rm cm => wf b /\ length rm = nrows b /\ length cm = ncols b
-  | BlockDiag _ b => wf b /\ bshape b <> [] /\ 0 < nrows b /\ 0 < ncols b
+  | BlockDiag _ b => wf b /\ bshape b <> [] /\ 0 < nrows b /\ 0 < ncols b /\ 0 < nblocks K b
   | BlockInterleaved _ b => wf b /\ bshape b <> [] /\ 0 < nblocks K b
   | SumBatch _ b => wf b /\ bshape b <> []
   | BatchRepeat _ b rep => wf b /\ length rep = length (bshape b)
@@ -76,6 +76,7 @@ Fixpoint lin (e : OpExpr) : bool :=
   | Sum _ ops => forallb lin ops
   | Matmul _ l r => lin l && lin r
   | ConstantMul _ b _ _ => lin b
+  | Interpolated _ b _ _ _ _ _ _ | Masked _ b _ _ | BlockDiag _ b | BlockInterleaved _ b | SumBatch _ b => lin b
   | _ => false
   end.
 
